@@ -17,6 +17,9 @@ VOCAB += ["ABSENT", "ABSTRACT-SYNTAX", "ALL", "BMPString", "BY", "CHARACTER", "C
           "VideotexString", "VisibleString"]
 
 SEEDS = [
+    # block comments over several lines (nested, too) in front of, inside and behind the module: the documented panic is for
+    # UNTERMINATED comments only, whatever blank lines a fault puts around these
+    "/* header\n over two lines */\nSeed4 DEFINITIONS AUTOMATIC TAGS ::= BEGIN\n A ::= SEQUENCE { a INTEGER (0..7), /* inner\n comment /* nested\n one */ goes\n on */ b BOOLEAN }\n /* in front\n of the end */\nEND\n/* footer\n of two lines */",
     # literals of every kind (hex / binary / character strings, negative numbers) as values and as DEFAULT
     "Seed3 DEFINITIONS AUTOMATIC TAGS ::= BEGIN h OCTET STRING ::= 'AB12'H n INTEGER ::= -12 t UTF8String ::= \"a b\" f BOOLEAN ::= FALSE\n L ::= SEQUENCE { a OCTET STRING DEFAULT 'CF'H, b INTEGER (-5..5) DEFAULT -3, c IA5String DEFAULT \"x\", d BOOLEAN DEFAULT TRUE, e OCTET STRING (SIZE(2)) DEFAULT h } END",
     "Seed1 DEFINITIONS AUTOMATIC TAGS ::= BEGIN A ::= SEQUENCE { a INTEGER (0..7) OPTIONAL, b UTF8String DEFAULT \"hello world\",\n ..., c [APPLICATION 3] BOOLEAN } B ::= CHOICE { x A, y NULL, ..., z OCTET STRING (SIZE(1..4,...)) } END",
